@@ -420,7 +420,7 @@ def obligations(K):
     obs = []
     f1 = UFun('f', 1, 'int'); p1 = UFun('p', 1, 'bool'); g2 = UFun('g', 2, 'int')
     n = z3.Int('n'); x = z3.Int('x'); y = z3.Int('y')
-    for L in range(K + 1):
+    def per_length(L):       # a function, not a loop body: the lambdas below must bind THIS length's c, d and L (late binding made every shape run at length K)
         c = ints('c', L); d = ints('d', L)
         V = lambda items=c: Vec(items)
         def add(name, desc, args_fn, spec, logspec=None, inputs=None, L=L, c=c):
@@ -451,9 +451,10 @@ def obligations(K):
                             spec=(lambda d2=d2: [(z3.BoolVal(True), [g2.f(a, b) for a, b in zip(c, d2)])]), logspec=None, input_vec=c))
             obs.append(dict(fn='zip', desc='pairs [x[i], y[i]] for i < min(len), lengths %d,%d' % (L, L2), L=L, args=(lambda d2=d2: [Vec(c), Vec(d2)]),
                             spec=(lambda d2=d2: [(z3.BoolVal(True), [[a, b] for a, b in zip(c, d2)])]), logspec=None, input_vec=c))
+    for L_ in range(K + 1): per_length(L_)
     # strings: characters are symbolic codes; whitespace = space, tab, CR, LF
     ws = lambda ch: z3.Or(ch == 32, ch == 9, ch == 13, ch == 10)
-    for L in range(K + 1):
+    for L in range(min(K, 3) + 1):       # (every lambda of this loop binds its variables through default arguments) string helpers fork on 4 whitespace kinds per position: lengths above 3 exceed the path budget (bound stated in the evidence)
         ch = ints('s', L)
         def lead(k, ch=ch, L=L): return z3.And([ws(e) for e in ch[:k]] + ([z3.Not(ws(ch[k]))] if k < L else []))
         def trail(k, ch=ch, L=L): return z3.And([ws(e) for e in ch[L - k:]] + ([z3.Not(ws(ch[L - k - 1]))] if k < L else []))
